@@ -286,7 +286,7 @@ def get_sym(libs, s, name):
             return r
         return cast
     if name in ('ravel', 'flatten', 'copy', 'reshape', 'view', 'transpose', 'permute', 'contiguous', 'clone',
-                'detach', 'repeat', 'squeeze', 'unsqueeze', 'to', 'astype', 'numel', 'dim', 'tobytes', 'tolist', 'flip'):
+                'detach', 'repeat', 'squeeze', 'unsqueeze', 'to', 'type_as', 'astype', 'numel', 'dim', 'tobytes', 'tolist', 'flip'):
         return getattr(s, name)
     if name == 'new_zeros':
         raise AnalysisError('unsupported', 'new_zeros on a filter tensor')
